@@ -692,6 +692,38 @@ def _sweep(cell, case, ctx):
                                              variant=f"{da}{R.sysname(sa)}" + (f"+{db}{R.sysname(sb)}" if db else ""), backend="object")
                                     return
                 ctx.nontrivial(key=[cell["id"], name], sample={"operation": name, "signatures": "all"})
+            # interference between calls, per operation and array backend: the same call before and after a call of the same
+            # operation on other operands that carry non-coordinate fields (another layout, another system) gives the same bits
+            allnames = names + sorted(catalog.EXTRA_OPS)
+            for name in [n for i, n in enumerate(allnames) if i % 16 == cell["shard"]]:
+                op = catalog.get(name)
+                for da in op.self_dims:
+                    db = (op.other_dims(da) or [None])[0]
+                    bsrc = case["b"] if db != 3 or "boost" not in op.tags else {"stratum": "beta3", "c": [*case["beta3"], 0.0]}
+                    e = {"rel": "independent", "a": case["a"], "b": bsrc, "s": {k: case["s"][k] for k in op.scalars if k in case["s"]}}
+                    if set(op.scalars) - set(e["s"]):
+                        continue
+                    for ki, kname in enumerate(KINDS):
+                        if kname not in ("flat", "np1", "jagged"):
+                            continue
+                        other = [i for i, k_ in enumerate(KINDS) if k_ in (("jagged", "flat") if kname != "np1" else ("np1",)) and k_ != kname]
+                        ko = other[0] if other else ki
+                        # (run_step decodes h: kind = h % len(KINDS), system from bits 4.., extra fields from bit 9)
+                        hp = next(h_ for h_ in range(16, 512) if h_ % len(KINDS) == ki)
+                        hl = next(h_ for h_ in range(512 + 32, 1024) if h_ % len(KINDS) == ko)
+                        plain = {"kind": "op", "op": name, "da": da, "db": db, "elem": e, "h": hp}
+                        loaded = {"kind": "op", "op": name, "da": da, "db": db, "elem": e, "h": hl}
+                        r1 = run_step(plain)
+                        if r1[0] == "skip":
+                            continue
+                        run_step(loaded)
+                        r3 = run_step(plain)
+                        ctx.evaluation()
+                        if r1 != r3:
+                            ctx.fail("history_dependent", f"{name} on a {da}D {kname} operand gave {str(r1)[:160]} at first and {str(r3)[:160]} "
+                                     f"after one call of {name} on another operand carrying the fields charge / tag", op=name,
+                                     variant=f"{da}|{kname}", backend="array")
+                            return
     finally:
         numpy.seterr(**saved_err)
 
